@@ -450,7 +450,12 @@ mod exec {
         /// use `detached()`.
         pub fn capture(self) -> PopenResult<CaptureData> {
             let (mut comm, mut p) = self.setup_communicate()?;
-            let (maybe_out, maybe_err) = comm.read()?;
+            let result = comm.read();
+            // Release our ends of the pipes before the child is waited for,
+            // also when communication failed: a child still writing output
+            // would otherwise never be released.
+            drop(comm);
+            let (maybe_out, maybe_err) = result?;
             Ok(CaptureData {
                 stdout: maybe_out.unwrap_or_else(Vec::new),
                 stderr: maybe_err.unwrap_or_else(Vec::new),
@@ -1109,7 +1114,10 @@ mod pipeline {
         /// close.  If this is undesirable, use `detached()`.
         pub fn capture(self) -> PopenResult<CaptureData> {
             let (mut comm, mut v) = self.setup_communicate()?;
-            let (out, err) = comm.read()?;
+            let result = comm.read();
+            // the same rationale as in Exec::capture()
+            drop(comm);
+            let (out, err) = result?;
             let out = out.unwrap_or_else(Vec::new);
             let err = err.unwrap();
 
